@@ -13,6 +13,7 @@ the output before the fault / of a clean session."""
 import json
 import os
 import random
+import re
 import shutil
 import sys
 
@@ -110,7 +111,7 @@ def doc_boundaries(text):
     return out
 
 
-FAULTS = ["deleted", "moved", "empty", "truncated", "cut-mid-item", "wrong-type", "scalar", "bad-xpath", "unknown-key", "not-yaml"]
+FAULTS = ["deleted", "moved", "empty", "truncated", "cut-mid-item", "wrong-type", "scalar", "bad-xpath", "unknown-key", "not-yaml", "bad-mid"]
 
 
 def fault_ops(kind, path, orig_text, rng):
@@ -149,6 +150,19 @@ def fault_ops(kind, path, orig_text, rng):
         if i < 0:
             return None
         return [["h_write", path, orig_text[:i + 1] + orig_text[i + 1:].replace("tag: ", "tga: ", 1)]]
+    if kind == "bad-mid":
+        # one bad definition in the MIDDLE of the file: the load fails after part of the file was read
+        if os.path.basename(path).startswith("unicode"):
+            ms = list(re.finditer(r'(?m)^ - "([^"\\]+)": \[t: "[^"]*"\]', orig_text))
+            if len(ms) < 12:
+                return None
+            m = ms[rng.choice([3, len(ms) // 10, len(ms) // 3])]
+            return [["h_write", path, orig_text[:m.start()] + ' - "%s": [tq: "oops"]' % m.group(1) + orig_text[m.end():]]]
+        ms = list(re.finditer(r'(?m)^( *)match: .*$', orig_text))
+        if len(ms) < 4:
+            return None
+        m = ms[rng.choice([1, len(ms) // 2])]
+        return [["h_write", path, orig_text[:m.start()] + m.group(1) + 'match: "self::m:mi[[("' + orig_text[m.end():]]]
     raise ValueError(kind)
 
 
@@ -161,7 +175,7 @@ def repair_ops(kind, path, orig_path, how):
 # ------------------------------------------------------------------------------------------------------------------
 # histories: harness steps + the python-side account of the file system (stamps as epochs, broken files)
 # ------------------------------------------------------------------------------------------------------------------
-HARD = ["empty", "wrong-type", "scalar", "not-yaml", "bad-xpath", "unknown-key"]     # the load of the file fails
+HARD = ["empty", "wrong-type", "scalar", "not-yaml", "bad-xpath", "unknown-key", "bad-mid"]     # the load of the file fails
 SLEEP = ["h_sleep", 12]          # modification times have the granularity of a kernel tick
 
 
@@ -288,6 +302,7 @@ def scenarios(res, n_dirs):
     if tier == "quick":
         # every file once with a hard fault, once moved away, plus a sample of the rest
         chosen = [(f, rng.choice(HARD)) for f in files] + [(f, "moved") for f in files[::3]] + combos[:20]
+        chosen += [(f, "bad-mid") for f in files if os.path.basename(f).startswith("unicode") and (f, "bad-mid") not in chosen]
     else:
         chosen = combos
     out = []
@@ -311,6 +326,8 @@ def scenarios(res, n_dirs):
                     continue
                 h.must_report = kind in HARD and scen != "in-place-Prefs"
                 h.queries("during")
+                if kind == "bad-mid" or rng.random() < 0.3:
+                    h.queries("during")        # the fault is still there: the second round of calls is affected as well
                 h.repair_all()
                 h.queries("final")
             elif scen == "first-broken":
